@@ -427,25 +427,65 @@ Section Fix.
   Definition bad_files (failed : list fent) : list (nat * cfile * nat) :=
     flat_map (fun e => if fe_bad e then match fe_file e with Some (f, i) => [(fe_idx e, f, i)] | None => [] end else []) failed.
 
+  (* the loop over the disks of one stripe *)
+  Definition data_phase (o : copts) (c : content) (pos : nat) (s : rstate) : dacc :=
+    fold_left (data_step o c pos) (seq 0 (length (c_disks c))) (mkDA [] [] true false s).
+
+  (* reading the parity blocks of the stripe: PNone = nothing to use (no handle, or read error) *)
+  Definition parity_phase (o : copts) (pos : nat) (s : rstate) : list penc * rstate :=
+    fold_left (fun (acc : list penc * rstate) l =>
+                 let '(r, st) := acc in
+                 if nth l (co_popen o) false then
+                   match nth pos (nth l (r_par st) []) PNone with
+                   | PNone => (r ++ [PNone], rs_err (rs_tag st [tg K_PAR_READ [pos; l] []]) 1)
+                   | p => (r ++ [p], st)
+                   end
+                 else (r ++ [PNone], st)) (seq 0 nlev) ([], s).
+
+  (* comparing the parity read with the one computed from the (repaired) buffer *)
+  Definition compare_phase (pos : nat) (rec : list penc) (buf : list bid) (s : rstate) : list penc * rstate :=
+    fold_left (fun (acc : list penc * rstate) l =>
+                 let '(r, st) := acc in
+                 let p := nth l rec PNone in
+                 if negb (is_pnone p) && negb (par_matches buf p)
+                 then (r ++ [PNone], rs_err (rs_tag st [tg K_PAR_DATA [pos; l] []]) 1)
+                 else (r ++ [p], st)) (seq 0 nlev) ([], s).
+
+  (* writing back the recovered blocks *)
+  Definition write_phase (o : copts) (pos : nat) (failed : list fent) (buf : list bid) (s : rstate) : rstate :=
+    fold_left (fun s e =>
+                 if negb (fe_bad e) then s else
+                 match fe_file e with
+                 | None => s
+                 | Some (f, i) =>
+                   let j := fe_idx e in
+                   let key := (j, cf_name f) in
+                   if is_excl o j (cf_name f) || (co_syncedonly o && fl_unsynced (get_fl (r_flags s) key)) then s else
+                   let s' := match fs_find (r_fs s) j (cf_name f) with
+                             | Some g => rs_setfs s (fs_put (r_fs s) j (write_block g f i (vnth buf j)))
+                             | None => s end in
+                   if fe_ood e then rs_flag s' key fl_set_damaged
+                   else rs_recov (rs_tag (rs_flag s' key fl_set_fixed) [tg K_FIXED [pos; j] [cf_name f; N.of_nat i]]) 1
+                 end) failed s.
+
+  (* rewriting the parity blocks found wrong or missing *)
+  Definition parity_write_phase (o : copts) (pos : nat) (rec2 : list penc) (buf : list bid) (s : rstate) : rstate :=
+    fold_left (fun s l =>
+                 if is_pnone (nth l rec2 PNone) && nth l (co_popen o) false && negb (nth l (co_pexcl o) false)
+                 then rs_recov (rs_tag (rs_setpar s (mapi (fun k lv => if Nat.eqb k l then set_ext PNone pos (PEnc buf) lv else lv) (r_par s)))
+                                       [tg K_PAR_FIXED [pos; l] []]) 1
+                 else s) (seq 0 nlev) s.
+
   Definition stripe_step (o : copts) (c : content) (fs0 : list (option fsdisk)) (s : rstate) (pos : nat) : rstate :=
     let ndisk := length (c_disks c) in
-    let a := fold_left (data_step o c pos) (seq 0 ndisk) (mkDA [] [] true false s) in
+    let a := data_phase o c pos s in
     let s1 := da_st a in
     let failed := da_failed a in
     let s2 :=
       if co_audit o then
         fold_left (fun s x => let '(j, f, i) := x in rs_flag s (j, cf_name f) fl_set_damaged) (bad_files failed) s1
       else
-        (* read the parity *)
-        let '(rec, s1a) :=
-          fold_left (fun (acc : list penc * rstate) l =>
-                       let '(r, st) := acc in
-                       if nth l (co_popen o) false then
-                         match nth pos (nth l (r_par st) []) PNone with
-                         | PNone => (r ++ [PNone], rs_err (rs_tag st [tg K_PAR_READ [pos; l] []]) 1)
-                         | p => (r ++ [p], st)
-                         end
-                       else (r ++ [PNone], st)) (seq 0 nlev) ([], s1) in
+        let '(rec, s1a) := parity_phase o pos s1 in
         let '(res, failed', buf, jn', rtags) := repair pos (co_nosearch o) fs0 failed rec (da_buf a) (r_jn s1a) in
         let s1b := rs_tag (rs_setjn s1a jn') rtags in
         match res with
@@ -456,38 +496,10 @@ Section Fix.
                                           | None => s end) partial s1b in
           let s4 := match partial with [] => s3 | _ => rs_unrec (rs_err s3 (length partial)) 1 end in
           let check_par := da_used a && da_valid a in
-          (* compare the parity read with the computed one *)
-          let '(rec2, s5) :=
-            if check_par then
-              fold_left (fun (acc : list penc * rstate) l =>
-                           let '(r, st) := acc in
-                           let p := nth l rec PNone in
-                           if negb (is_pnone p) && negb (par_matches buf p)
-                           then (r ++ [PNone], rs_err (rs_tag st [tg K_PAR_DATA [pos; l] []]) 1)
-                           else (r ++ [p], st)) (seq 0 nlev) ([], s4)
-            else (rec, s4) in
+          let '(rec2, s5) := if check_par then compare_phase pos rec buf s4 else (rec, s4) in
           if co_fix o then
-            let s6 := fold_left (fun s e =>
-                        if negb (fe_bad e) then s else
-                        match fe_file e with
-                        | None => s
-                        | Some (f, i) =>
-                          let j := fe_idx e in
-                          let key := (j, cf_name f) in
-                          if is_excl o j (cf_name f) || (co_syncedonly o && fl_unsynced (get_fl (r_flags s) key)) then s else
-                          let s' := match fs_find (r_fs s) j (cf_name f) with
-                                    | Some g => rs_setfs s (fs_put (r_fs s) j (write_block g f i (vnth buf j)))
-                                    | None => s end in
-                          if fe_ood e then rs_flag s' key fl_set_damaged
-                          else rs_recov (rs_tag (rs_flag s' key fl_set_fixed) [tg K_FIXED [pos; j] [cf_name f; N.of_nat i]]) 1
-                        end) failed' s5 in
-            if check_par then
-              fold_left (fun s l =>
-                           if is_pnone (nth l rec2 PNone) && nth l (co_popen o) false && negb (nth l (co_pexcl o) false)
-                           then rs_recov (rs_tag (rs_setpar s (mapi (fun k lv => if Nat.eqb k l then set_ext PNone pos (PEnc buf) lv else lv) (r_par s)))
-                                                 [tg K_PAR_FIXED [pos; l] []]) 1
-                           else s) (seq 0 nlev) s6
-            else s6
+            let s6 := write_phase o pos failed' buf s5 in
+            if check_par then parity_write_phase o pos rec2 buf s6 else s6
           else
             fold_left (fun s x => let '(j, f, i) := x in rs_flag s (j, cf_name f) fl_set_fixed) (bad_files failed') s5
         | _ =>
